@@ -233,6 +233,13 @@ func WriteModule(spec *synth.Spec, dir string) (string, error) {
 		return "", err
 	}
 	gomod := "module " + synth.Module + "\n\ngo 1.23.0\n"
+	for _, r := range rs {
+		if strings.Contains(r.Src, `"github.com/lib/pq"`) {
+			// a source file imports lib/pq: resolved by the offline stand-in
+			gomod += "\nrequire github.com/lib/pq v0.0.0\nreplace github.com/lib/pq => /verif/engine/pq\n"
+			break
+		}
+	}
 	if err := os.WriteFile(filepath.Join(dir, "go.mod"), []byte(gomod), 0o644); err != nil {
 		return "", err
 	}
